@@ -357,7 +357,21 @@ def worker(cfg, tier):
                 return self._o("obs", gs, (1,), jnp.float32)
 
             def get_output(self, gs, action):
-                return POutput(y=action[0])
+                return POutput(y=action[0] + self._o("out", gs, (), jnp.float32))
+
+            # user hooks that write to the supervisor's own state and to another node's state (arbitrary functions of what they read)
+            def _hook(self, tag, gs, action):
+                new = {}
+                for n in gs.state:
+                    x = gs.state[n].x
+                    new[n] = gs.state[n].replace(x=jax.pure_callback(oracle_callback(f"{tag}_{n}", (), jnp.float32), jax.ShapeDtypeStruct((), jnp.float32), x, action[0]))
+                return gs.replace(state=gs.state.copy(new))
+
+            def update_graph_state_pre_step(self, gs, action):
+                return self._hook("pre", gs, action) if cfg.get("hooks") else gs
+
+            def update_graph_state_post_step(self, gs, action):
+                return self._hook("post", gs, action) if cfg.get("hooks") else gs
 
             def get_truncated(self, gs):
                 return self._o("trunc", gs, (), jnp.bool_)
@@ -374,23 +388,63 @@ def worker(cfg, tier):
         it = jx.Interp(callback_handler=calls.handler)
         alg = it.alg
         ta = jx.Traced(lambda s, a: env.step(s, a), gs0, jnp.zeros((1,), jnp.float32))
-        tb = jx.Traced(lambda s, a: g.step(s, s.step_state[sup], POutput(y=a[0]))[0], gs0, jnp.zeros((1,), jnp.float32))
+
+        def ref(s, a):
+            out = env.get_output(s, a)  # from the incoming graph state
+            pre = env.update_graph_state_pre_step(s, a)
+            st = g.step(pre, pre.step_state[sup], out)[0]  # the supervisor's step state is the one the pre-step hook left behind
+            return st, env.update_graph_state_post_step(st, a)
+
+        tb = jx.Traced(ref, gs0, jnp.zeros((1,), jnp.float32))
         flat = ta.sym_inputs(it, "e")
         oa = ta.run(it, flat)
-        ob_ = tb.run(it, flat)
+        n_env = len(calls.calls)
+        gs_step, ob_ = tb.run(it, flat)
         v, m, s, triv = cg.check_eq(alg, oa[0], ob_, timeout=tmo)
-        obs.append(Ob("Environment.step: graph part == graph.step(gs, supervisor step state, get_output(gs, action))", v, s, cfg, trivial=triv,
-                      key="env-step", what="Environment.step does not step the graph with the supervisor's output set from the action"))
-        # reward / flags / observation are computed from the stepped graph state
-        gs_after = ob_
+        o_ = Ob("Environment.step: graph part == post_hook(graph.step(pre_hook(gs), supervisor step state of pre_hook(gs), get_output(gs, action)))", v, s, cfg, trivial=triv,
+                key="env-step", what="Environment.step does not step the (pre-step-updated) graph with the supervisor's output set from the action")
+
+        def _concrete():
+            """real env.step vs the reference composition, eagerly, concrete oracles (deterministic functions of their arguments)"""
+            fixtures.ORACLE_RETURNS.clear()
+            gs_c = gs0.replace(state=gs0.state.copy({n: gs0.state[n].replace(x=jnp.float32(0.37 + 0.84 * i)) for i, n in enumerate(sorted(gs0.state))}))
+            a_c = jnp.array([0.61], jnp.float32)
+            fixtures.CALL_LOG.clear()
+            real = env.step(gs_c, a_c)
+            log = list(fixtures.CALL_LOG)
+            st_c, post_c = ref(gs_c, a_c)
+            return real, log, st_c, post_c
+
+        if v == "sat":
+            try:
+                real, log, st_c, post_c = _concrete()
+                la, lb = jax.tree_util.tree_leaves(real[0]), jax.tree_util.tree_leaves(post_c)
+                o_.replayed = len(la) != len(lb) or any(not np.array_equal(np.asarray(x), np.asarray(y)) for x, y in zip(la, lb))
+            except Exception as ex:  # noqa
+                o_.detail = f"replay raised {type(ex).__name__}: {ex}"
+        obs.append(o_)
+        # reward / flags are computed from the stepped graph state, the observation from the post-step-updated one
         conj = []
         for tag in ("reward", "term", "trunc", "obs"):
-            c = calls.by_tag(f"oracle_{tag}")[0]
-            conj.append(_eqz(alg, c["args"][0], gs_after.state[sup].x))
-            conj.append(_eqz(alg, c["args"][1], gs_after.seq[sup]))
+            c = [c_ for c_ in calls.calls[:n_env] if c_["tag"] == f"oracle_{tag}"][0]
+            ref_gs = ob_ if tag == "obs" else gs_step
+            conj.append(_eqz(alg, c["args"][0], ref_gs.state[sup].x))
+            conj.append(_eqz(alg, c["args"][1], ref_gs.seq[sup]))
         v, m, s = smt.check([], z3.And(*conj), tmo)
-        obs.append(Ob("Environment.step: reward, done flags and observation are evaluated on the stepped graph state", v, s, cfg, key="env-step-post",
-                      what="Environment.step evaluates reward/flags/observation on the wrong graph state"))
+        o_ = Ob("Environment.step: reward, done flags and observation are evaluated on the stepped graph state", v, s, cfg, key="env-step-post",
+                what="Environment.step evaluates reward/flags/observation on the wrong graph state")
+        if v == "sat":
+            try:
+                real, log, st_c, post_c = _concrete()
+                bad = False
+                for tag in ("reward", "term", "trunc", "obs"):
+                    a_ = [a for t_, a in log if t_ == f"oracle_{tag}"][0]
+                    rg = post_c if tag == "obs" else st_c
+                    bad = bad or float(a_[0]) != float(rg.state[sup].x) or int(a_[1]) != int(rg.seq[sup])
+                o_.replayed = bad
+            except Exception as ex:  # noqa
+                o_.detail = f"replay raised {type(ex).__name__}: {ex}"
+        obs.append(o_)
     return obs
 
 
@@ -502,10 +556,10 @@ def configs(tier):
     out = [dict(which=w) for w in ("autoreset_fixed", "autoreset_fresh", "log", "squash", "nosquash")]
     out += [dict(which="norm_obs", B=2, D=1), dict(which="norm_reward", B=2, D=1)]
     out += [dict(which="norm_obs", B=1, D=1), dict(which="norm_reward", B=1, D=1)]  # a single vectorised environment (batch statistics of one sample)
-    out += [dict(which="env_step", inst=cg.instances("quick", small=True)[0])]
+    out += [dict(which="env_step", inst=cg.instances("quick", small=True)[0]), dict(which="env_step", inst=cg.instances("quick", small=True)[0], hooks=True)]
     if tier == "thorough":
         out += [dict(which="norm_obs", B=3, D=2), dict(which="norm_reward", B=3, D=1), dict(which="squash", D=2), dict(which="autoreset_fixed", D=2)]
-        out += [dict(which="env_step", inst=i) for i in cg.instances("quick", small=True)[1:4]]
+        out += [dict(which="env_step", inst=i, hooks=h) for i in cg.instances("quick", small=True)[1:4] for h in (False, True)]
     return out
 
 
